@@ -76,11 +76,17 @@ def scenario_for(k, batch_seed, tier, repo_root, opts=None):
 
 
 # =========================================================================== step model
-def step_scores(res, time, pp):
+def step_scores(res, time, pp, bnorms=None):
     """Return (best_max_score, per-step scores for the best choice, chosen c, info dict).
 
     R_j = v_j - c*dt*a_j*(v_{j+1} - 2 v_j + v_{j-1}) - u'_j   (1 <= j <= nx-2)
     R_{nx-1} = v_{nx-1} - c*dt*a_{nx-1}*(v_{nx-2} - v_{nx-1}) - u'_{nx-1}
+
+    Tolerance per step ("rounding level relative to the step's right-hand side"):
+        1e-9 * ||b||_2  +  64*eps*(1 + 4*c*dt*max a)*||v||_inf  +  1e-11*||pp[0]||_inf
+    where b is the step's right-hand side *including its frac-face entry* (taken from the
+    solver seam's record when there is exactly one recorded solve per step, otherwise
+    reconstructed from the stored levels through row 0 of the update).
     """
     time = np.asarray(time, dtype=float)
     pp = np.asarray(pp, dtype=float)
@@ -121,10 +127,23 @@ def step_scores(res, time, pp):
             c_ls = float(np.sum(d * g) / den)
             if (nx - 1) ** 2 <= c_ls <= (nx + 1) ** 2:
                 cands.append(c_ls)
-        upmax = np.max(np.abs(up), axis=1)
         for c in cands:
             R = np.max(np.abs(d - c * g), axis=1)
-            thr = 1e-9 * upmax + 64 * EPS * (1 + 4 * c * dt[:, 0] * amax) * vmax + 1e-11 * scale0
+            if bnorms is not None:
+                bn = np.asarray(bnorms, dtype=float)
+            elif m_i is None:
+                bn = np.linalg.norm(up, axis=1)
+            else:
+                # frac-face entry of the right-hand side from row 0: b0 = (1+2k0) v0 - k0 v1, k0 = c dt a(b0)
+                b0 = v[:, 0].copy()
+                with np.errstate(all="ignore"):
+                    for _ in range(2):
+                        a0 = np.asarray(res.alpha_scaled(b0), dtype=float)
+                        k0 = c * dt[:, 0] * a0
+                        b0 = (1 + 2 * k0) * v[:, 0] - k0 * v[:, 1]
+                b0 = np.where(np.isfinite(b0), b0, 0.0)
+                bn = np.sqrt(np.sum(up[:, 1:] ** 2, axis=1) + b0 ** 2)
+            thr = 1e-9 * bn + 64 * EPS * (1 + 4 * c * dt[:, 0] * amax) * vmax + 1e-11 * scale0
             sc = R / thr
             m = float(np.max(sc))
             if m < best[0]:
@@ -182,7 +201,13 @@ def run_once(ns, scn, plan=None):
     r.pp = getattr(res, "pseudopressure", None)
     r.completed = r.raised is None and r.pp is not None and r.time is not None
     if r.completed:
-        r.score, r.scores, r.c, r.info = step_scores(res, r.time, r.pp)
+        bn = None
+        try:
+            if len(r.records) == len(r.time) - 1 and all(x.get("b") is not None and x.get("fault") is None for x in r.records):
+                bn = [float(np.linalg.norm(x["b"])) for x in r.records]
+        except Exception:  # noqa: BLE001
+            bn = None
+        r.score, r.scores, r.c, r.info = step_scores(res, r.time, r.pp, bn)
     else:
         r.score, r.scores, r.c, r.info = None, None, None, {}
     return r
@@ -350,6 +375,7 @@ def aggregate(agg, scn, res):
 
 
 def merge(a, b):
+    a["timeouts"] = a.get("timeouts", 0) + b.get("timeouts", 0)
     for key in ("runs", "steps", "solver_calls", "natural_info_nonzero", "iterative_calls", "direct_calls", "fault_runs", "violating_runs"):
         a[key] += b[key]
     a["sim_time"] += b["sim_time"]
@@ -475,6 +501,7 @@ def evidence(out, tier, seed, wall, wall_batch, cross, known_hits, violations, w
             "batch_digest": engine.batch_digest(out["digests"]),
             "known_finding_runs": known_hits,
             "violating_runs": agg["violating_runs"],
+            "scenarios_timed_out_inconclusive": agg.get("timeouts", 0),
             "warnings": warn,
             "real_vs_stub": {
                 "real": "all of bluebonnet; scipy interp1d, sparse.diags; the linear solver in pass-through runs (wrapped, recorded)",
